@@ -3,7 +3,7 @@
 # _CoqProject and Makefile are regenerated from the file tree (never committed).
 set -e
 cd "$(dirname "$0")/../coq"
-exec 9>/verif/coq/.build.lock
+exec 9>.build.lock
 flock 9
 { echo "-Q theories QV"; echo "-arg -w -arg -notation-overridden,-deprecated-hint-without-locality,-deprecated-instance-without-locality,-ambiguous-paths"; find theories -name '*.v' | sort; } > _CoqProject.new
 if ! cmp -s _CoqProject.new _CoqProject 2>/dev/null; then mv _CoqProject.new _CoqProject; coq_makefile -f _CoqProject -o Makefile >/dev/null; else rm _CoqProject.new; fi
